@@ -40,7 +40,11 @@ def monotone_map(rng, n, style=None):
     """n strictly increasing floats with relative gaps >= 1e-6 (ranks 0..n-1 -> floats).
 
     Styles cover negative values (maximised objectives), tiny and huge magnitudes, integers, and mixtures."""
-    style = style or rng.choice(["int", "neg", "unit", "tiny", "huge", "mixed", "offset"])
+    style = style or rng.choice(["int", "neg", "unit", "tiny", "huge", "mixed", "offset", "minuscule"])
+    if style == "minuscule":
+        # magnitudes whose products underflow (1e-170 * 1e-170 = 0.0) and whose differences are exact
+        unit = rng.choice([1e-170, 3e-165, 1e-200]) * rng.choice([-1, 1])
+        return sorted(unit * k for k in rng.sample(range(1, 40), n))
     if style == "close":
         # distinct values far closer to each other than any plausible tolerance, yet far above rounding error (only on request)
         base = rng.choice([0.0, 1.0, -3.5, 250.0])
@@ -85,7 +89,7 @@ def dense_ranks(columns):
     for i in range(m):
         vals = sorted({v[i] for v in columns})
         for a, b in zip(vals, vals[1:]):
-            if b - a < 1e-12 * max(1.0, abs(a), abs(b)):
+            if b - a < 1e-12 * max(abs(a), abs(b)):
                 raise ValueError("near tie")
         idx = {v: k for k, v in enumerate(vals)}
         for k, v in enumerate(columns):
